@@ -1,5 +1,6 @@
 import PeliteModel.Lemmas.Cross
 import PeliteModel.Thm.C02Arith
+import PeliteModel.Generated.ImageLayout
 /-!
 C01 — memory safety: every reference the safe API returns lies inside the buffer and is aligned for
 its type; no operation performs an unchecked access outside the buffer (`Out.ub`).
@@ -229,5 +230,86 @@ example : fromBytes .pe32 .view demoImg = .ok demoView ∧
   refine ⟨(fromBytes_ok_iff _ _ _ _).2 ⟨by decide +kernel,
     by rw [show imageBaseField .pe32 demoImg.bytes = 0x400000 by decide +kernel]; rfl⟩, ?_⟩
   decide +kernel
+
+/-! ### second audit round: the unchecked reads of `validate_headers` and `check_sum` -/
+
+/-- `Headers::check_sum` (headers.rs:39) and `Pe::rich_structure` (pe.rs:479) reinterpret the whole
+buffer as `&[u32]` with `slice::from_raw_parts(image.as_ptr() as *const u32, image.len() / 4)`: for every
+constructed view (both formats, both kinds) that slice lies inside the buffer and is dword aligned —
+the alignment is the constructor's test `image.as_ptr().aligned_to(4)` (pe.rs:778). -/
+theorem C01_checksum_dwords (f : Fmt) (k : Kind) (img : Img) (v : View) (hv : fromBytes f k img = .ok v) :
+    RefOK img ⟨0, 4 * (img.bytes.size / 4), 4⟩ := by
+  obtain ⟨ha, -⟩ := (fromBytes_ok_iff _ _ _ _).1 hv
+  unfold Accept at ha
+  dsimp only at ha
+  refine ⟨?_, ?_⟩
+  · show 0 + 4 * (img.bytes.size / 4) ≤ img.bytes.size
+    omega
+  · show (img.base + 0) % 4 = 0
+    rw [Nat.add_zero]; exact ha.2.1
+
+/-- `validate_headers` reads the DOS header, the signature, the optional-header magic and the NT headers
+through raw pointers (pe.rs:781, 801, 802, 817); in the checked model each of them is a `rawRef` (`ub`
+when outside the buffer or misaligned for the pointee).  No input whatsoever — any bytes, any length, any
+address — reaches such a branch: the length and alignment guards that precede each read discharge it.
+Likewise for the constructors built on it. -/
+theorem C01_validate_no_ub (f : Fmt) (k : Kind) (img : Img) (s : String) :
+    validateChk f img ≠ .ub s ∧ fromBytesChk f k img ≠ .ub s ∧ wrapFromBytesChk k img ≠ .ub s :=
+  ⟨(C02_validate_never_panics f img).ne_ub s, (C02_fromBytes_never_panics f k img).ne_ub s,
+    (C02_wrapFromBytes_never_panics k img).ne_ub s⟩
+
+/-- `check_sum` on every constructed view (also after `set_base_address`): the dword view is never UB -/
+theorem C01_checksum_no_ub (f : Fmt) (k : Kind) (img : Img) (v : View) (hv : fromBytes f k img = .ok v)
+    (base : Nat) (hb : img.bytes.size < 4294967296) (s : String) : (v.setBase base).checkSumChk ≠ .ub s := by
+  rw [C02_checkSum_checked_eq_constructed f k img v hv base hb]
+  intro h; cases h
+
+/-- the predicate-terminated reads with ANY callable, stateful ones included: no `&*s` of the loop and
+no final `from_raw_parts` is outside the buffer or misaligned -/
+theorem C01_checked_slice_f_no_ub (v : View) (a : Addr) (size align : Nat) (stop : Nat → Nat → Bool)
+    (hb : v.b.size < 4294967296) (hs : 1 ≤ size) (hsz : size < 18446744073709551616) (hsa : size % align = 0)
+    (ha : align < 18446744073709551616) (hp : isPow2 align = true) (s : String) :
+    v.dervaSliceFIChk a size align stop ≠ .ub s :=
+  (C02_dervaSliceFI_never_panics v a size align stop hb hs hsz hsa ha hp).ne_ub s
+
+/-- what a predicate-terminated read hands out lies inside the buffer and is aligned for the element type -/
+theorem C01_slice_f_ref (v : View) (a : Addr) (size align : Nat) (stop : Nat → Nat → Bool) (ref : Ref)
+    (h : v.dervaSliceFI a size align stop = .ok ref) : RefOK v.img ref := by
+  unfold View.dervaSliceFI at h
+  cases hat : v.at a 0 align with
+  | ok r =>
+    rw [hat] at h
+    dsimp only at h
+    obtain ⟨⟨hb, hal⟩, -, hra⟩ := v.at_sound a 0 align r hat
+    rw [hra] at hal
+    cases hL : sliceFLoopI v.b r.off r.len size stop (r.len + 2) 0 with
+    | ok n =>
+      rw [hL] at h
+      cases h
+      obtain ⟨-, h2, -, -⟩ := sliceFLoopI_ok _ _ _ hL
+      rw [Nat.succ_mul] at h2
+      exact ⟨by show r.off + n * size ≤ _; omega, hal⟩
+    | _ => rw [hL] at h; cases h
+  | _ => rw [hat] at h; cases h
+
+/-- the sizes and alignments handed to `rawRef` in `validateChk` / `checkSumChk` are those of the
+pointees in the CURRENT source (`Generated/ImageLayout.lean` is rewritten from /repo on every run) -/
+theorem C01_validate_pointee_layout :
+    (64 = Generated.Layout.IMAGE_DOS_HEADER__size ∧ 4 = Generated.Layout.IMAGE_DOS_HEADER__align) ∧
+    (Fmt.pe32.ntSize = Generated.Layout.IMAGE_NT_HEADERS32__size ∧ 4 = Generated.Layout.IMAGE_NT_HEADERS32__align) ∧
+    (Fmt.pe64.ntSize = Generated.Layout.IMAGE_NT_HEADERS64__size ∧ 4 = Generated.Layout.IMAGE_NT_HEADERS64__align) ∧
+    (Fmt.pe32.ntSize - Fmt.pe32.optSize = Generated.Layout.IMAGE_NT_HEADERS32__OptionalHeader ∧
+     Fmt.pe64.ntSize - Fmt.pe64.optSize = Generated.Layout.IMAGE_NT_HEADERS64__OptionalHeader) := by
+  decide
+
+/-- the PE32+ file and the PE32 view: constructed, hence the dword view of the whole buffer is fine; the
+`ub` branch of `rawRef` is live code (a read one byte beyond the buffer, a misaligned read) -/
+example : fromBytes .pe64 .file demo64Img = .ok demo64File ∧ RefOK demo64Img ⟨0, 4 * (256 / 4), 4⟩ ∧
+    validateChk .pe64 demo64Img = .ok 288 ∧ validateChk .pe32 demoImg = .ok 200 ∧
+    validateChk .pe32 ⟨demoImg.bytes, 2⟩ = .err .misaligned ∧
+    rawRef "site" demo64Img 253 4 1 = .ub "site" ∧ rawRef "site" demo64Img 2 4 4 = .ub "site" ∧
+    rawRef "site" demo64Img 64 136 4 = .ok ⟨64, 136, 4⟩ :=
+  ⟨demo64File_ok, by decide +kernel, by decide +kernel, by decide +kernel, by decide +kernel,
+    by decide +kernel, by decide +kernel, by decide +kernel⟩
 
 end Pelite.Pe
